@@ -686,11 +686,36 @@ impl Scenario for C02 {
             };
             ops.push(op);
         }
+        // programs on many embedding keys: half of them start by filling three to five
+        // embedding keys in order, deleting one of the earlier ones and taking a checkpoint
+        // (an entity index with a hole in it goes into a snapshot)
+        if many_emb && rng.chance(1, 2) {
+            let mut ks = vec![2u8, 3, 200, 201, 202];
+            let n = rng.range(3, 5) as usize;
+            // a random order of creation
+            for i in (1..ks.len()).rev() {
+                let j = rng.usize_below(i + 1);
+                ks.swap(i, j);
+            }
+            ks.truncate(n);
+            let mut head = Vec::new();
+            for k in &ks {
+                u += 1;
+                head.push(Op::Put { k: *k, v: 10, u });
+            }
+            head.push(Op::Del { k: ks[rng.usize_below(n - 1)] });
+            if sync != 0 {
+                head.push(Op::Sync);
+            }
+            head.push(Op::Checkpoint);
+            head.extend(ops.drain(..));
+            ops = head;
+        }
         // periodic workloads: in a third of the batched/manual-sync programs the same
         // sequence of writes (same keys and value shapes, fresh values) is issued once more
         // after a sync + checkpoint and synced again, so that the log passes through the
         // same sizes twice
-        if sync != 0 && rng.chance(1, 3) {
+        if sync != 0 && rng.chance(3, 5) {
             let a: Vec<Op> = ops.iter().filter(|o| matches!(o, Op::Put { v, .. } if *v < 200) || matches!(o, Op::Del { .. })).take(5).cloned().collect();
             if !a.is_empty() {
                 let mut again = a.clone();
@@ -729,7 +754,7 @@ impl Scenario for C02 {
             )
         };
         // one very large value (a single log record of 12-18 MiB) in a few seeded-crash programs
-        if mode != Mode::Enumerate && rng.chance(1, 12) {
+        if mode != Mode::Enumerate && rng.chance(1, 5) {
             let at = rng.usize_below(ops.len() + 1);
             u += 1;
             ops.insert(at, Op::Put { k: *rng.pick(&[0u8, 1, 4, 8]), v: *rng.pick(&[201u8, 202, 202]), u });
